@@ -58,6 +58,7 @@ type parser struct {
 	pkg *types.Package
 	nm  map[string]*types.Named
 	al  map[string]*types.Alias
+	file *types.Scope // the file scope under which the function scopes of R(k,t) types are created
 }
 
 func (p *parser) fail(msg string) { panic("parse: " + msg + " at " + strconv.Itoa(p.pos) + " in " + p.s) }
@@ -138,6 +139,31 @@ func (p *parser) term() types.Type {
 		name := "NC" + strconv.Itoa(len(p.nm))
 		n := types.NewNamed(types.NewTypeName(token.NoPos, p.pkg, name, nil), e, nil)
 		p.setC(p.pkg.Path() + "." + name)
+		p.nm[key] = n
+		return n
+	case "R": // R(k,t): a FUNCTION-LOCAL defined type `type rec t`; every distinct (k,t) is declared in a function scope of
+		// its own (package scope -> file scope -> function scope, as go/types builds them), all with the identifier `rec`
+		p.expect('(')
+		p.ident()
+		p.expect(',')
+		e := p.term()
+		p.expect(')')
+		key := p.s[st:p.pos]
+		if n, ok := p.nm[key]; ok {
+			return n
+		}
+		if en, ok := e.(*types.Named); ok {
+			e = en.Underlying()
+		}
+		if p.file == nil {
+			p.file = types.NewScope(p.pkg.Scope(), token.NoPos, token.NoPos, "file")
+		}
+		fn := types.NewScope(p.file, token.NoPos, token.NoPos, "function")
+		obj := types.NewTypeName(token.NoPos, p.pkg, "rec", nil)
+		n := types.NewNamed(obj, e, nil)
+		if fn.Insert(obj) != nil {
+			p.fail("rec declared twice in one scope")
+		}
 		p.nm[key] = n
 		return n
 	case "P", "S", "C", "N":
